@@ -40,7 +40,7 @@ LEVEL_TEXT = ('exploration: ~8*10^3 (quick) / ~10^5 (thorough) decompositions an
               'each residual evaluated exactly')
 LEVEL_NOTE = 'trusted base: vf/linalgq.py, reference gamma values; matrices not generated are not covered'
 TECHNIQUE = 'runtime reference-model monitor: exact residual evaluation of every returned decomposition'
-SHARD_TIMEOUT = {'quick': 500, 'thorough': 3000}
+SHARD_TIMEOUT = {'quick': 1000, 'thorough': 10800}   # thorough: a shard needs ~110 CPU-s; the cap only bounds hangs (a loaded machine at 5% CPU per worker exceeded the former 3000 s)
 
 NSHARDS = 16
 CASES = {'quick': 520, 'thorough': 6000}
